@@ -80,6 +80,10 @@ theorem read_data_dense (h : H) (bl : List Block) (t : Option Int) (hf : Fresh h
   apply chunks_complete _ _ h1
   simpa using h2
 
+/-- Non-vacuity: a handle at the start of such an entry. -/
+example : Fresh { state := .data, evs := [(2, [5, 6]), (6, [7]), (9, [])].map evOfBlock, term := { off := some 11 } }
+    [(2, [5, 6]), (6, [7]), (9, [])] (some 11) := ⟨rfl, rfl, rfl, rfl, rfl, rfl⟩
+
 /-- Non-vacuity: leading hole, interior hole, empty block, trailing hole reported with EOF. -/
 example : WellFormed [(2, [5, 6]), (6, [7]), (9, [])] (some 11) := by
   refine ⟨⟨by decide, by decide, by decide, trivial⟩, ?_⟩
@@ -223,6 +227,26 @@ theorem skip_then_header_eq_read_then_header (h : H) (he : ErrFree h) (hk : Hook
 example : ErrFree { state := .data, evs := [evOfBlock (0, [1]), evOfBlock (5, [2, 3])] } ∧
     HookOk { state := .data, evs := [evOfBlock (0, [1]), evOfBlock (5, [2, 3])] } :=
   ⟨⟨rfl, ⟨[(0, [1]), (5, [2, 3])], rfl⟩, rfl⟩, Or.inl rfl⟩
+
+/-- **Every body starts from a clean slate.**  Whatever was done with the previous
+body (`Boundary`: nothing yet, anything inside an error-free body, an explicit
+skip), the header of a well-formed entry is returned with status OK and the
+`read_data_*` members reset, so that the dense-image theorems above apply to it
+(`Fresh`). -/
+theorem next_header_starts_fresh (h : H) (hb : Boundary h) (e : Entry) (rest : List Entry)
+    (hg : h.entries = e :: rest) (hc : CleanEntry e) (bl : List Block) (hbl : e.evs = bl.map evOfBlock) :
+    (nextHeader h).1 = .ok ∧ (nextHeader h).2.entryObj = some (h.nread, e.size) ∧
+    Fresh (nextHeader h).2 bl e.term.off := by
+  have key : ∀ g : H, g.entries = e :: rest → g.nread = h.nread →
+      (headerStep g).1 = .ok ∧ (headerStep g).2.entryObj = some (h.nread, e.size) ∧
+      Fresh (headerStep g).2 bl e.term.off := by
+    intro g hge hnr
+    refine ⟨(headerStep_clean hge hc).1, ?_, headerStep_fresh hge hc.1 hbl hc.2.2.1⟩
+    unfold headerStep headerRest readHeader
+    simp only [hge, hc.1, hnr]
+  rcases hb with hs | ⟨he, hk⟩
+  · rw [nextHeader_header hs]; exact key _ hg rfl
+  · rw [nextHeader_data he hk]; exact key _ hg rfl
 
 /-- **Headers do not depend on how bodies are consumed.**  For an archive all of
 whose entries are well-formed, two clients that consume the bodies in any two
